@@ -163,6 +163,36 @@ def specMsgD (nm : Naming) (env : Env) (full : Name) (m : MsgP) : Option MsgD :=
   (mapMOpt (fun f => (specOf full m f).bind (specFieldD env gs (nm.fld f.name))) m.fields).map
     fun fs => { fields := fs, nGroups := gs.length }
 
+/-! ### the messages of a file with their full names (specification side of the traversal) -/
+
+mutual
+def fullMsgsL (pre : Name) : List MsgP → List (Name × MsgP)
+  | [] => []
+  | m :: ms => fullMsgs1 pre m ++ fullMsgsL pre ms
+/-- `m` and every message nested in it, each with its full name `.pkg.Outer.Inner`, in declaration order -/
+def fullMsgs1 (pre : Name) : MsgP → List (Name × MsgP)
+  | .mk n fs ns es os me => (pre ++ '.' :: n, .mk n fs ns es os me) :: fullMsgsL (pre ++ '.' :: n) ns
+end
+
+def pkgPrefix (pkg : Name) : Name := if pkg.isEmpty then [] else '.' :: pkg
+
+/-- the messages of a file that get a class (synthetic map entries excepted) -/
+def liveMsgs (l : List (Name × MsgP)) : List (Name × MsgP) := l.filter fun p => !p.2.mapEntry
+
+def fileMsgs (fl : FileP) : List (Name × MsgP) := liveMsgs (fullMsgsL (pkgPrefix fl.package) fl.messages)
+
+def packageMsgs (files : List FileP) : List (Name × MsgP) := files.flatMap fileMsgs
+
+/-- the three per-message guards of `Props/C03.lean`: what protoc guarantees, outside D30 / D31 -/
+def inDomain (full : Name) (m : MsgP) : Bool := validMsg full m && mapRefsLocal full m && noWrapperMapValue m
+
+/-- every message of every file (at every depth) is in the domain -/
+def validPackage (files : List FileP) : Bool := (packageMsgs files).all fun p => inDomain p.1 p.2
+
+/-- the runtime schema the descriptors demand of the package -/
+def specSchema (nm : Naming) (env : Env) (files : List FileP) : Option Schema :=
+  mapMOpt (fun p => specMsgD nm env p.1 p.2) (packageMsgs files)
+
 /-! ### the pydantic variant (`PydanticOneOfFieldCompiler`): a oneof member additionally gets
     `optional=True` and an `Optional[...]` annotation -/
 
